@@ -1,12 +1,14 @@
 pub mod c01;
 pub mod c02;
 pub mod c03;
+pub mod c04;
 pub mod c05;
 pub mod c06;
 pub mod c09;
 pub mod c10;
 pub mod c11;
 pub mod c14;
+pub mod c15;
 pub mod c16;
 pub mod c17;
 pub mod c18;
@@ -20,12 +22,14 @@ pub fn by_id(id: &str) -> Option<Box<dyn Prop>> {
         "C01" => Some(Box::new(c01::C01::default())),
         "C02" => Some(Box::new(c02::C02::default())),
         "C03" => Some(Box::new(c03::C03::default())),
+        "C04" => Some(Box::new(c04::C04::default())),
         "C05" => Some(Box::new(c05::C05::default())),
         "C06" => Some(Box::new(c06::C06::default())),
         "C09" => Some(Box::new(c09::C09::default())),
         "C10" => Some(Box::new(c10::C10::default())),
         "C11" => Some(Box::new(c11::C11::default())),
         "C14" => Some(Box::new(c14::C14::default())),
+        "C15" => Some(Box::new(c15::C15::default())),
         "C16" => Some(Box::new(c16::C16::default())),
         "C17" => Some(Box::new(c17::C17::default())),
         "C18" => Some(Box::new(c18::C18::default())),
